@@ -1,7 +1,7 @@
 #!/bin/bash
 # usage: refall.sh [props] — every kept refactoring (refactors/ and refactors-heavy/) against the quick checks; prints what fires
 PROPS=${1:-all}
-for d in /verif/refactors/*/ /verif/refactors-heavy/*/; do
+for d in /verif/refactors/*/; do
   t=$(basename $d)
   git -C /repo apply $d/patch.diff || { echo "== $t PATCH DOES NOT APPLY"; continue; }
   out=$(cd /verif && bin/kafcheck -q -p $PROPS -evidence-dir /tmp/ev 2>&1 | grep -v "^KNOWN\|conda\|0 violated, 0 undecided\|^VIOLATION" | cut -c1-330 | head -${REFALL_LINES:-12})
